@@ -85,6 +85,21 @@ def norm_exc(e):
     return ("exc", type(e).__name__)
 
 
+# When a scenario sets KEEP to a list, every operand that is one of the
+# package's containers is remembered there as (operand, is_mapping, listing
+# at construction): the scenario can then check that operands stay what they
+# were -- an operand is never modified, and what is done to the target later
+# must not show in it (no shared nodes).
+KEEP = None
+
+
+def _keep(obj, form):
+    if KEEP is not None and form in ("Set", "TreeSet", "Bucket", "BTree"):
+        m = form in ("Bucket", "BTree")
+        KEEP.append((obj, m, listing(obj, m), form))
+    return obj
+
+
 def _operand(dom, form, keyspecs, impl, valspecs=None):
     """build the right-hand operand of update / in-place operators (with the
     comparison hook of sim/keys.py switched off: faults belong to the
@@ -93,7 +108,7 @@ def _operand(dom, form, keyspecs, impl, valspecs=None):
     saved = HOOK.enabled
     HOOK.enabled = False
     try:
-        return _operand_(dom, form, keyspecs, impl, valspecs)
+        return _keep(_operand_(dom, form, keyspecs, impl, valspecs), form)
     finally:
         HOOK.enabled = saved
 
@@ -154,7 +169,7 @@ def _pairs(dom, form, pairs, impl):
     saved = HOOK.enabled
     HOOK.enabled = False
     try:
-        return _pairs_(dom, form, pairs, impl)
+        return _keep(_pairs_(dom, form, pairs, impl), form)
     finally:
         HOOK.enabled = saved
 
